@@ -952,7 +952,7 @@ def dec2hp(dec):
     :return: HP Notation (DDD.MMSSSS)
     :rtype: float
     """      
-    minute, second = divmod(abs(dec) * 3600, 60)
+    minute, second = divmod(abs(float(dec)) * 3600, 60)
     degree, minute = divmod(minute, 60)
 
     # floating point precision is 13 places for the variable 'dec' where values
@@ -1022,7 +1022,7 @@ def dec2dms(dec):
     :return: Degrees, Minutes, Seconds Object
     :rtype: DMSAngle
     """
-    minute, second = divmod(abs(dec) * 3600, 60)
+    minute, second = divmod(abs(float(dec)) * 3600, 60)
     degree, minute = divmod(minute, 60)
     return (DMSAngle(degree, minute, second, positive=True) if dec >= 0
             else DMSAngle(degree, minute, second, positive=False))
@@ -1036,7 +1036,7 @@ def dec2ddm(dec):
     :return: Degrees, Decimal Minutes Object
     :rtype: DDMAngle
     """
-    minute, second = divmod(abs(dec) * 3600, 60)
+    minute, second = divmod(abs(float(dec)) * 3600, 60)
     degree, minute = divmod(minute, 60)
     minute = minute + (second / 60)
     return DDMAngle(degree, minute, positive=True) if dec >= 0 else DDMAngle(degree, minute, positive=False)
@@ -1244,7 +1244,7 @@ def dd2sec(dd):
     :param dd: Decimal Degrees
     :return: Seconds
     """
-    minute, second = divmod(abs(dd) * 3600, 60)
+    minute, second = divmod(abs(float(dd)) * 3600, 60)
     degree, minute = divmod(minute, 60)
     sec = (degree * 3600) + (minute * 60) + second
     return sec if dd >= 0 else -sec
@@ -1255,7 +1255,7 @@ def dec2hp_v(dec):
     # so that no field can reach 60 through floating point error
     # (units of 1e-8" from 512 degrees, where a float holds only 12 places)
     unit = 1e9 - 9e8 * (abs(dec) >= 512)
-    total = (abs(dec) * 3600 * unit + 0.5) // 1
+    total = (abs(dec * 1.0) * 3600 * unit + 0.5) // 1
     minute, second = divmod(total, 60 * unit)
     degree, minute = divmod(minute, 60)
     hp = degree + (minute / 100) + (second / unit / 10000)
